@@ -21,6 +21,9 @@ func guarded(f func() Val) (r Val) {
 // exact copies b into a slice with cap == len (DESIGN section 3: caller slices have cap = len,
 // so that a re-slice past len panics as the model says)
 func exact(b []byte) []byte {
+	if spareMode {
+		return spareCopy(b) // stable.go: second run of every request, canary-filled spare capacity
+	}
 	c := make([]byte, len(b))
 	copy(c, b)
 	return c[:len(c):len(c)]
